@@ -61,6 +61,10 @@ type Req struct {
 	TrailerAlgo    string
 	SignContentLength bool
 	Host           string
+	// overrides used to build requests that are validly signed but carry a false assertion
+	TrailerValue    string // trailing checksum value to send instead of the computed one
+	DecodedLen      *int   // X-Amz-Decoded-Content-Length to declare
+	PayloadHash     string // x-amz-content-sha256 to declare in ModeSigned
 }
 
 // Signed is a request after signing, still structured so that a test can
@@ -343,6 +347,9 @@ func (r *Req) Sign() *Signed {
 	switch r.Mode {
 	case ModeSigned:
 		payloadHash = shaHex(r.Body)
+		if r.PayloadHash != "" {
+			payloadHash = r.PayloadHash
+		}
 	case ModeUnsigned:
 		payloadHash = "UNSIGNED-PAYLOAD"
 	case ModeChunked:
@@ -355,7 +362,11 @@ func (r *Req) Sign() *Signed {
 	hdrs = append(hdrs, KV{"X-Amz-Date", t.Format(amzTime)}, KV{"X-Amz-Content-Sha256", payloadHash})
 	streaming := r.Mode == ModeChunked || r.Mode == ModeChunkedTrailer || r.Mode == ModeUnsignedTrailer
 	if streaming {
-		hdrs = append(hdrs, KV{"X-Amz-Decoded-Content-Length", fmt.Sprint(len(r.Body))})
+		dl := len(r.Body)
+		if r.DecodedLen != nil {
+			dl = *r.DecodedLen
+		}
+		hdrs = append(hdrs, KV{"X-Amz-Decoded-Content-Length", fmt.Sprint(dl)})
 		if r.Mode != ModeChunked {
 			algo := r.TrailerAlgo
 			if algo == "" {
@@ -380,12 +391,17 @@ func (r *Req) Sign() *Signed {
 		out.Body = r.Body
 		return out
 	}
-	out.Body, out.Marks = EncodeChunked(r.Body, splitChunks(len(r.Body), r.ChunkSizes), r.Mode, r.TrailerAlgo, key, t, scope, sig)
+	out.Body, out.Marks = EncodeChunkedV(r.Body, splitChunks(len(r.Body), r.ChunkSizes), r.Mode, r.TrailerAlgo, key, t, scope, sig, r.TrailerValue)
 	return out
 }
 
 // EncodeChunked produces the aws-chunked wire body.
 func EncodeChunked(payload []byte, sizes []int, mode, algo string, key []byte, t time.Time, scope, seedSig string) ([]byte, []Mark) {
+	return EncodeChunkedV(payload, sizes, mode, algo, key, t, scope, seedSig, "")
+}
+
+// EncodeChunkedV is EncodeChunked with an optional trailing checksum value override.
+func EncodeChunkedV(payload []byte, sizes []int, mode, algo string, key []byte, t time.Time, scope, seedSig, trailerValue string) ([]byte, []Mark) {
 	if algo == "" {
 		algo = "crc32"
 	}
@@ -431,6 +447,9 @@ func EncodeChunked(payload []byte, sizes []int, mode, algo string, key []byte, t
 	case ModeChunkedTrailer:
 		name := "x-amz-checksum-" + algo
 		val := Checksum(algo, payload)
+		if trailerValue != "" {
+			val = trailerValue
+		}
 		mark("trailer-name", len(name))
 		b.WriteString(name)
 		b.WriteString(":")
@@ -448,6 +467,9 @@ func EncodeChunked(payload []byte, sizes []int, mode, algo string, key []byte, t
 	case ModeUnsignedTrailer:
 		name := "x-amz-checksum-" + algo
 		val := Checksum(algo, payload)
+		if trailerValue != "" {
+			val = trailerValue
+		}
 		mark("trailer-name", len(name))
 		b.WriteString(name)
 		b.WriteString(":")
